@@ -9,6 +9,9 @@ from harness import core
 from harness.project import call, fix
 
 
+
+RULE_EXTRA = ("the sweep machine's invariant proved inductive by Apalache for integers of any size; empty observed spectra; twin peaks (known finding C17_TwinPeaksCountedOnce); coverage after 'all' matching; tolerance exactly 0 off grid; fragment lists mixing charge states.")
+
 def grid_lists(rnd, maxlen, ppm):
     nt, no = rnd.randint(0, maxlen), rnd.randint(0, maxlen)
     if ppm:
